@@ -233,7 +233,9 @@ func StrictJSON(b []byte) (map[string]bool, string) {
 
 // ---------------------------------------------------------------- the check
 
-var c19Special = []string{" ", "\"", "'", "\\", "\t", "\n", "\r", "\x01", "\x7f", "\xff\xfe", "é", ":", "-", "[1]", "%d", "{", "}", "%s%!(EXTRA", " "}
+var c19Special = []string{" ", "\"", "'", "\\", "\t", "\n", "\r", "\x01", "\x7f", "\xff\xfe", "é", ":", "-", "[1]", "%d", "{", "}", "%s%!(EXTRA", " ",
+	// what encoding/json escapes for HTML's sake, and text that looks like the escapes it produces
+	"<", ">", "&", "\\u0026", "\\u003c", "\\n", "\\\""}
 
 func c19Names(tier string) []string {
 	var out []string
@@ -493,7 +495,7 @@ func c19Worker(sh *explore.Shard) {
 					// CLI tier: the real binary (model git on PATH) must print exactly
 					// these renderings: whatever main does between the scan and stdout
 					// is part of the report too
-					if cfg == nil && rootName == "" && cliDir != "" && len(sc.Desc) < 200 && sh.Index()%3 == 0 {
+					if cfg == nil && rootName == "" && cliDir != "" && len(sc.Desc) < 200 && (sh.Index()%3 == 0 || strings.Contains(sc.Desc, "u00")) {
 						if fsn, err := cli.NewFakeSession(filepath.Join(cliDir, fmt.Sprintf("f%d", sh.Index())), sc.Repo, &modelgit.Plan{GitDir: "/model/.git"}); err == nil {
 							for _, run := range []struct {
 								args []string
@@ -633,6 +635,6 @@ func plainGrouper() sizes.RefGrouper {
 
 func init() {
 	Registry["C19"] = &Check{Level: "exploration", Worker: c19Worker, QuickBudget: 70 * time.Second, ThoroughBudget: 10 * time.Minute,
-		Rule:        "a special-byte alphabet (space, double and single quote, backslash, TAB, LF, CR, 0x01, DEL, invalid UTF-8, multi-byte UTF-8, ':', leading '-', '[1]', printf verbs, braces, U+2028) in four positions (alone, start, middle, end) and long names (255, 256, 4096, 65494, 65495; 70000 in thorough) placed in: directory names, file names (all single placements and a product at reduced alphabet), reference names (only those git check-ref-format accepts; the harness rule is validated against real git on the whole alphabet in every run), ROOT spellings (also as the only root with no reference walked: full and abbreviated object ids, HEAD, @, ~ ^{} ^0 forms), refgroup symbols and display names; scanned in-process in the three name styles. JSON v1 and v2 must pass an independent strict RFC 8259 validator and have the plain-name key set (per-refgroup members excepted); the table must equal row by row (layout ignored) the text constructed from the scan's own citations (numbered 1..k by first citation, equal texts sharing a number, every footnote cited); descriptions are judged as in C08; for every third tree-entry placement the real binary (model git on PATH) must print the same JSON v1, JSON v2 (token for token, member order included) and table (row for row) as the in-process rendering of the same scan. non-trivial = every placement",
+		Rule:        "a special-byte alphabet (space, double and single quote, backslash, TAB, LF, CR, 0x01, DEL, invalid UTF-8, multi-byte UTF-8, ':', leading '-', '[1]', printf verbs, braces, U+2028, < > &, literal backslash-u0026 / backslash-u003c / backslash-n / backslash-quote text) in four positions (alone, start, middle, end) and long names (255, 256, 4096, 65494, 65495; 70000 in thorough) placed in: directory names, file names (all single placements and a product at reduced alphabet), reference names (only those git check-ref-format accepts; the harness rule is validated against real git on the whole alphabet in every run), ROOT spellings (also as the only root with no reference walked: full and abbreviated object ids, HEAD, @, ~ ^{} ^0 forms), refgroup symbols and display names; scanned in-process in the three name styles. JSON v1 and v2 must pass an independent strict RFC 8259 validator and have the plain-name key set (per-refgroup members excepted); the table must equal row by row (layout ignored) the text constructed from the scan's own citations (numbered 1..k by first citation, equal texts sharing a number, every footnote cited); descriptions are judged as in C08; for every third tree-entry placement the real binary (model git on PATH) must print the same JSON v1, JSON v2 (token for token, member order included) and table (row for row) as the in-process rendering of the same scan. non-trivial = every placement",
 		Assumptions: []string{"reference names are limited to what git itself can hold", "footnote texts are taken from the scan result (Path.String()) and the table is compared with the constructive expected text"}}
 }
